@@ -26,7 +26,9 @@ TRUSTED = [
 
 CLS = {"Geometry": "CGeometry", "Characteristics": "CCharacteristics", "Environment": "CEnvironment",
        "APDCharacteristics": "CAPDCharacteristics"}
-PATH = {"ctor": "PCtor", "yaml": "PYaml", "attr": "PAttr", "sweep": "PSweep"}
+# "obsrun": the value is one point of a REAL observation (pyxel.run_mode on an Observation that sweeps the field,
+# sequentially or with dask); accepted = the run completes.  It is the sweep path of the model.
+PATH = {"ctor": "PCtor", "yaml": "PYaml", "attr": "PAttr", "sweep": "PSweep", "obsrun": "PSweep"}
 
 # used ONLY to aim the generator and to classify a failing value; the decision is taken inside Coq against
 # Model.Config.documented.  (cls, field, lo, hi, integer-ish, sequence length)
@@ -181,7 +183,7 @@ def corpus_guard_cases():
     return out
 
 
-def gen_guard_cases(ctx: Ctx, n_random: int):
+def gen_guard_cases(ctx: Ctx, n_random: int, n_obsrun: int = 6):
     r = ctx.rng("guards")
     cases = corpus_guard_cases()
     ctx.cov["corpus_cases"] = len(cases)
@@ -209,6 +211,18 @@ def gen_guard_cases(ctx: Ctx, n_random: int):
                 if path == "yaml" and (x["t"] != "inf" or small):
                     continue  # a YAML document cannot carry a numpy scalar
                 cases.append(dict(k="guard", cls=cls, field=field, path=path, det=r.choice(dets), x=x))
+        # real observation runs over the field: a few values per field, sequential and dask
+        plain_vals = [x for x in gen_values(r, lo, hi, integer, seqlen, small, 2)
+                      if x["t"] in ("int", "float", "nan") or (x["t"] == "seq" and seqlen is not None)]
+        if seqlen is not None:
+            plain_vals = [x for x in plain_vals if x["t"] == "seq"]
+        uniq = {json.dumps(x, sort_keys=True): x for x in plain_vals}
+        pick = r.sample(sorted(uniq), min(n_obsrun, len(uniq)))
+        if seqlen is None and json.dumps(NAN, sort_keys=True) not in pick:
+            pick.append(json.dumps(NAN, sort_keys=True))
+        for i, key in enumerate(pick):
+            cases.append(dict(k="guard", cls=cls, field=field, path="obsrun", det=r.choice(dets), x=uniq[key],
+                              dask=bool(i % 2)))
     return cases
 
 
